@@ -590,11 +590,11 @@ def permute_batch(spec: Spec, b: Batch, perm: list[int]) -> Batch | None:
 
 def f64_variant(b: Batch, salt: int = 1) -> Batch:
     """the same batch with every floating tensor in float64 and the FIRST one (the predictions / data) moved off the
-    float32 grid by the factor (1 − salt·2^-40) — it stays inside [0,1] / keeps its sign and ties, labels and weights
+    float32 grid by the factor (1 − salt·2^-30) — it stays inside [0,1] / keeps its sign and ties, labels and weights
     keep their exact values: metrics whose state dtype follows the data (Max, Min, PSNR, Covariance, MSE / R2 after
     shape adoption, CTR …) then hold float64 state whose VALUE is not float32-representable, so a restore / reset /
     merge that silently goes through the default dtype becomes visible in value and in dtype."""
-    f = 1.0 - salt * 2.0 ** -40
+    f = 1.0 - salt * 2.0 ** -30     # ≈ 1e-9 relative: far below float32 resolution (6e-8), far above float64 noise
     done = [False]
 
     def conv(a):
